@@ -21,17 +21,71 @@ def real_module(modname):
     return importlib.import_module(modname)
 
 
+def _input_snapshot(env):
+    """copies of the caller's arrays / sequences among the declared inputs (frame condition of the real run)"""
+    import copy
+
+    import numpy as np
+
+    snap = {}
+    for name, v in vars(env).items():
+        if isinstance(v, np.ndarray):
+            snap[name] = (v, np.ma.copy(v) if isinstance(v, np.ma.MaskedArray) else v.copy())
+        elif isinstance(v, (list, dict)):
+            try:
+                snap[name] = (v, copy.deepcopy(v))
+            except Exception:  # noqa: BLE001
+                pass
+        elif type(v).__module__.startswith("pandas") and hasattr(v, "copy"):
+            snap[name] = (v, v.copy())
+    return snap
+
+
+def _same(a, b):
+    import numpy as np
+
+    try:
+        if isinstance(a, np.ndarray):
+            if a.shape != b.shape or a.dtype != b.dtype:
+                return False
+            if isinstance(a, np.ma.MaskedArray):
+                if not np.array_equal(np.ma.getmaskarray(a), np.ma.getmaskarray(b)):
+                    return False
+                a, b = np.ma.getdata(a), np.ma.getdata(b)
+            if a.dtype.kind in "fc":
+                return bool(np.array_equal(a, b, equal_nan=True))
+            if a.dtype.kind == "O":
+                return all((x is y) or (x == y) or (x != x and y != y) for x, y in zip(a.ravel().tolist(), b.ravel().tolist()))
+            return bool(np.array_equal(a, b))
+        if type(a).__module__.startswith("pandas"):
+            return bool(a.equals(b))
+        if isinstance(a, list):
+            return len(a) == len(b) and all(_same(x, y) for x, y in zip(a, b))
+        if isinstance(a, dict):
+            return list(a.keys()) == list(b.keys()) and all(_same(a[k], b[k]) for k in a)
+        if isinstance(a, float) and a != a:
+            return b != b
+        r = a == b
+        return bool(r) if not hasattr(r, "all") else bool(r.all())
+    except Exception:  # noqa: BLE001
+        return True  # not comparable: no verdict
+
+
 def run_real(case, values):
     mk = RealMk(values)
     env = case.declare(mk)
     mod = real_module(case.module)
+    snap = _input_snapshot(env)
     try:
         with warnings.catch_warnings():
             warnings.simplefilter("ignore")
             r = case.call(mod, env)
-        return ("return", r)
     except Exception as e:  # noqa: BLE001
         return ("raise", e)
+    changed = sorted(n for n, (v, c) in snap.items() if not _same(v, c))
+    if changed:
+        return ("raise", C.FrameViolation("the call modified the caller's input(s) %s" % ", ".join(changed)))
+    return ("return", r)
 
 
 def run_model(T, case, values):
@@ -204,6 +258,8 @@ def _evaluate_contract(case, mk, ctx, outcome):
         bad = []
         rcl = case.raises(env)
         if kind == "raise":
+            if isinstance(val, C.FrameViolation):
+                return ["frame"]
             ok = False
             for E, nm, cond in rcl:
                 if isinstance(val, E) and _conc(cond) is True:
